@@ -266,10 +266,19 @@ def tail_chain(r):
     return prog(["i0"], [h, g, f], main, ["tail_position_call", "called_fn"])
 
 
+def alias_of_later_global_constant(r):
+    """the function stands above the assignment of the global constant it aliases"""
+    f = fn("f0", 0, ["l0"], [("assign", "l0", var("g0")), ("return", bin_("-", rd(5, "On"), ("intr1", "round", var("l0"))))], True)
+    g = fn("f1", 1, ["l0"], [("assign", "l0", var("g1")), ("return", bin_("+", bin_("*", var("p0"), var("l0")), var("g0")))], True)
+    main = [("assign", "g0", bin_("*", num(9), num(1))), ("assign", "g1", num(2.5)), wr(call("f0")), wr(call("f0")), wr(call("f1", rd(0)), 1), wr(call("f1", num(3)), 1)]
+    return prog(["g0", "g1"], [f, g], main, ["alias", "later_global_constant", "called_fn"])
+
+
 ALL = [param_mutation, param_mutation_twice, alias_outlives_source, alias_chain, callee_via_symbolless_function,
        callee_via_two_symbolless, nested_loops_innermost_only, while_in_for, inlined_return_register, temp_across_call,
        range_down_exact, bound_reread, early_return_with_inner_call, unused_parameter, return_call_tail,
-       suffix_named_inlined, modulo_negative, tiny_constants, tail_into_inlined, tail_from_inlined_host, tail_chain]
+       suffix_named_inlined, modulo_negative, tiny_constants, tail_into_inlined, tail_from_inlined_host, tail_chain,
+       alias_of_later_global_constant]
 
 
 def programs(rng):
